@@ -192,3 +192,20 @@ def build(reg):
         reg.add_loop(LoopContract('solver::run_iteration', k, lambda L: [], modifies=['*']))
     # V7
     reg.add(Contract('solver::solver', PROP, post=post_initial_pressure, slice_loop=1, name='solver::solver::<initial pressure loop>'))
+
+
+EXPLANATION = ("Contracts on the real cell-cycle code: update_target_volume (Vt' = max(Vt + dt*g, Vmin)), update_pressure (p = min(-K ln(V/Vt), pmax), "
+               "ln uninterpreted), is_ready_to_divide (epithelial: V >= Vdiv; base class: false), is_below_min_vol, initialize_random_properties "
+               "(sample unconstrained, result within mean +/- 3 sigma), clear_data, the order of operations inside apply_internal_forces "
+               "(pressure handed to apply_pressure_on_surface is min(-K ln(V_mesh/Vt'), pmax) with V_mesh the value compute_volume returned in "
+               "the same call), the removal predicate of solver::run_iteration (lambda under contract) and the structure of run_iteration "
+               "(every other callee is treated as 'may write anything': the erase/remove_if over the whole population runs exactly once per "
+               "iteration, after the integration step, and the list is not touched afterwards), and the body of the initial-pressure loop of "
+               "the solver constructor (Vt = V exp(p0/K), then the pressure law).")
+ASSUMPTIONS = ["exact reals; max_pressure_/avg_division_vol_ = +infinity is the limit case of an arbitrary real bound (a comparison with +inf is false, i.e. no cap)",
+               "std::log, std::exp uninterpreted (only log(exp x) = x is used by the engine, and not needed here)",
+               "std::remove_if + vector::erase have the meaning the C++17 standard gives them (stable sub-sequence of the elements whose predicate is false)",
+               "frame of cell::update_all_face_normals_and_areas (writes face areas and normals only) and purity of compute_area/compute_volume are assumed in the order contract; both are proved in C12's contracts",
+               "the removal predicate requires cell volume >= 0 (postcondition of compute_volume, C12): with a negative volume and non-positive min_vol the second evaluation after clear_data could differ"]
+UNVERIFIED = ["which subclasses override is_ready_to_divide is read from the AST of epithelial_cell and cell only; other subclasses inherit cell's (checked by the base-class contract)",
+              "that removed cells never reappear across iterations rests on: no other statement of run_iteration inserts into the list after the removal (proved) and cell_divider::run only replaces dividing cells (C08/C09)"]
